@@ -172,6 +172,25 @@ def rewrite_macros(text, applied):
     return text
 
 
+def expand_matches(text, applied):
+    """R10: `matches!(e, pat [if guard])` -> `(match e { pat [if guard] => true, _ => false })`: the
+    definition of the std macro, written out (Verus syntax is not parsed inside macro arguments)."""
+    while True:
+        m = R.mask(text)
+        mm = re.search(r"\bmatches!\s*\(", m)
+        if not mm:
+            return text
+        open_idx = mm.end() - 1
+        close = _paren_end(m, open_idx)
+        inner = text[open_idx + 1:close]
+        args = _split_top_commas(inner)
+        if len(args) < 2:
+            raise R.LostAnchor("matches! with %d arguments" % len(args))
+        scrut, pat = args[0].strip(), ",".join(args[1:]).strip().rstrip(",")
+        text = text[:mm.start()] + "(match %s { %s => true, _ => false })" % (scrut, pat) + text[close + 1:]
+        applied.add("R10 matches!(e, p) -> (match e { p => true, _ => false })")
+
+
 def strip_comments(text):
     m = R.mask(text, strings=False, comments=True)
     # drop lines that became empty because they only held a comment
@@ -273,6 +292,8 @@ def process_fn(text, block, applied, canary=False):
                 raise R.LostAnchor("%s: drop %r expected %d occurrence(s), found %d" % (block.path, old, n, text.count(old)))
             text = text.replace(old, "")
             applied.add("R7 dropped `%s`" % old)
+    if any(k == "expand_matches" for k, _ in d):
+        text = expand_matches(text, applied)
     text = rewrite_macros(text, applied)
 
     m = R.mask(text)
